@@ -344,3 +344,129 @@ Definition c04_hist_case_x (N : nat) (s0 : cfs) (h : list call) (after : option 
   let s := run_calls h s0 in
   (c04_hist_case N s0 h after impl
    + 16 * code [ ignores_rr_flag (cf_dd s) (cf_dr s) (cf_rd s) (cf_rr s) impl ])%nat.
+
+(* ------------------------------------------------ measurements on catalogs (C04) *)
+(* "The two samples' total weights" of the property are quantities of the CATALOGS that were paired,
+   not of whatever a CorrFunc stores.  A catalog is its records (redshift, weight), grouped in patches;
+   a side of a pair-count container reads it with the binning (reference side of a cross-correlation,
+   both sides of an autocorrelation: closed-side rule) or without (unknown side of a
+   cross-correlation: every object counts in every bin).  crosscorrelate / autocorrelate:
+     dd = (reference, unknown), dr = (reference, unknown randoms), rd = (reference randoms, unknown),
+     rr = (reference randoms, unknown randoms);  auto: dd = (data, data), dr = (data, randoms),
+     rr = (randoms, randoms). *)
+Definition cobj := (Q * Q)%type.                                (* redshift, weight *)
+Definition in_bin (right : bool) (lo hi z : Q) : bool :=
+  if right then Qltb lo z && Qleb z hi else Qleb lo z && Qltb z hi.
+Definition weight_of (l : list cobj) : Q := qsum (map snd l).
+Definition bin_members (right : bool) (lo hi : Q) (l : list cobj) : list cobj :=
+  filter (fun o => in_bin right lo hi (fst o)) l.
+Record side := { sd_binned : bool; sd_patches : list (list cobj) }.
+Definition cell_members (right binned : bool) (lo hi : Q) (l : list cobj) : list cobj :=
+  if binned then bin_members right lo hi l else l.
+Definition cell_weight (right binned : bool) (lo hi : Q) (l : list cobj) : Q :=
+  weight_of (cell_members right binned lo hi l).
+Definition cell_empty (right binned : bool) (lo hi : Q) (l : list cobj) : bool :=
+  match cell_members right binned lo hi l with [] => true | _ :: _ => false end.
+Fixpoint bin_bounds (edges : list Q) : list (Q * Q) :=
+  match edges with
+  | lo :: t => match t with hi :: _ => (lo, hi) :: bin_bounds t | [] => [] end
+  | [] => []
+  end.
+(* per bin the weight of every patch (what the jackknife needs), and the total of the whole catalog *)
+Definition bin_weights (right : bool) (s : side) (lo hi : Q) : list Q :=
+  map (cell_weight right (sd_binned s) lo hi) (sd_patches s).
+Definition side_weights (right : bool) (edges : list Q) (s : side) : list (list Q) :=
+  map (fun lh => bin_weights right s (fst lh) (snd lh)) (bin_bounds edges).
+Definition side_total (right : bool) (s : side) (lo hi : Q) : Q :=
+  cell_weight right (sd_binned s) lo hi (concat (sd_patches s)).
+
+(* one measured pair-count container: the pair counts the measurement produced and the two catalogs *)
+Record mcounts := { mc_auto : bool; mc_counts : list mat; mc_s1 : side; mc_s2 : side }.
+Definition meas_pc (right : bool) (edges : list Q) (m : mcounts) : pc :=
+  {| pc_auto := mc_auto m; pc_counts := mc_counts m;
+     pc_w1 := side_weights right edges (mc_s1 m); pc_w2 := side_weights right edges (mc_s2 m) |}.
+
+(* C04 on a measurement: CorrFunc.sample() of the CorrFunc that crosscorrelate / autocorrelate returned
+   (or of a CorrFunc made of some of its pair counts) against the model evaluated on the measured pair
+   counts and on the weights of the catalogs' records.  Bits 0, 1, 2, 4 as c04_corr_case_x.
+   Bit 5 (diagnosis, set only together with one of the others): the output IS the estimator normalised
+   with the weights the CorrFunc stores (s_dd ...), i.e. the stored weights are not the catalogs'. *)
+Definition c04_meas_case (right : bool) (edges : list Q) (N : nat) (dd : mcounts) (dr rd rr : option mcounts)
+           (s_dd : pc) (s_dr s_rd s_rr : option pc)
+           (impl : option (list oq * list (list oq))) : nat :=
+  let f := meas_pc right edges in
+  let c := c04_corr_case_x N (f dd) (option_map f dr) (option_map f rd) (option_map f rr) impl in
+  (c + 32 * code [ Nat.eqb c 0 || negb (Nat.eqb (c04_corr_case N s_dd s_dr s_rd s_rr impl) 0) ])%nat.
+
+(* n(z) of measured CorrFuncs against the exact model values.  The implementation's w_sp, w_ss, w_pp
+   are floats within tol48 * scale of the exact values (c04_meas_case checks that), so
+   nz^2 dz^2 w_ss w_pp - w_sp^2 is bounded to first order by
+     2 |a| e_a + e_a^2 + a^2 (e_s / |s| + e_p / |p|) + a few ulp of a^2         (a = w_sp, e = abs. error)
+   (four times that is allowed); nothing is compared where an exact value is undefined, where an
+   autocorrelation is within 2^10 error bounds of zero, or where the exact radicand is zero. *)
+Definition res_value (m : res) : Q := fst (fst m).
+Definition res_err (m : res) : Q := tol48 * snd m.
+Definition res_one : res := (1, true, 0).
+Definition meas_nz_entry_ok (dz : Q) (sp : res) (ss pp : option res) (nz : oq) : bool :=
+  let s := opt_or ss res_one in
+  let p := opt_or pp res_one in
+  if negb (res_defined sp && res_defined s && res_defined p) then true
+  else
+    let a := res_value sp in
+    let vs := res_value s in
+    let vp := res_value p in
+    if Qleb (Qabs vs) (1024 * res_err s) || Qleb (Qabs vp) (1024 * res_err p) then true
+    else
+      let D := nz_radicand dz vs vp in
+      if Qltb 0 D then
+        match nz with
+        | None => false
+        | Some x =>
+            let ea := res_err sp in
+            (Qleb (Qabs a) ea || Z.eqb (qsgn x) (qsgn a))
+            && Qleb (Qabs (x * x * D - a * a))
+                    (4 * (2 * Qabs a * ea + ea * ea
+                          + a * a * (res_err s / Qabs vs + res_err p / Qabs vp) + 4 * tol48 * (a * a)))
+        end
+      else match nz with Some _ => false | None => true end.
+Definition meas_nz_row_ok (dz : list Q) (sp : list res) (ss pp : option (list res)) (nz : list oq) : bool :=
+  Nat.eqb (length nz) (length dz) && Nat.eqb (length sp) (length dz)
+  && forallb (fun b => meas_nz_entry_ok (nth b dz 0) (nth b sp res_one)
+                                         (option_map (fun l => nth b l res_one) ss)
+                                         (option_map (fun l => nth b l res_one) pp) (nth b nz None))
+             (seq 0 (length dz)).
+(* a measured CorrFunc: dd and the optional dr, rd, rr *)
+Definition mcf := (mcounts * option mcounts * option mcounts * option mcounts)%type.
+Definition mcf_data (right : bool) (edges : list Q) (c : mcf) : list res :=
+  let '(dd, dr, rd, rr) := c in
+  let f := meas_pc right edges in
+  corr_data (f dd) (option_map f dr) (option_map f rd) (option_map f rr).
+Definition mcf_samples (right : bool) (edges : list Q) (N : nat) (c : mcf) : list (list res) :=
+  let '(dd, dr, rd, rr) := c in
+  let f := meas_pc right edges in
+  corr_samples N (f dd) (option_map f dr) (option_map f rd) (option_map f rr).
+(* flag0: RedshiftData.from_corrfuncs(cross, ref, unk).data; flag1: every row of .samples *)
+Definition c04_meas_nz_case (right : bool) (edges dz : list Q) (N : nat) (cross : mcf) (ref unk : option mcf)
+           (nz_d : list oq) (nz_s : list (list oq)) : nat :=
+  code [ meas_nz_row_ok dz (mcf_data right edges cross) (option_map (mcf_data right edges) ref)
+                        (option_map (mcf_data right edges) unk) nz_d;
+         Nat.eqb (length nz_s) N
+         && forallb (fun k => meas_nz_row_ok dz (nth k (mcf_samples right edges N cross) [])
+                                (option_map (fun c => nth k (mcf_samples right edges N c) []) ref)
+                                (option_map (fun c => nth k (mcf_samples right edges N c) []) unk)
+                                (nth k nz_s [])) (seq 0 N) ].
+
+(* A different implementation, for contrast (Proofs: skip_agrees_populated, skip_refuted): the weight
+   of cell (bin, patch) of one side is stored only when the partner's cell of the same patch holds
+   objects (a pair-counting shortcut for empty trees that also skips the bookkeeping; unlinked patches:
+   the only patch pair that writes column p is (p, p)).  It agrees with meas_pc on all catalogs
+   without empty cells. *)
+Definition mask_row (right binned : bool) (lo hi : Q) (partner : list (list cobj)) (w : list Q) : list Q :=
+  map2 (fun l x => if cell_empty right binned lo hi l then 0 else x) partner w.
+Definition side_weights_skip (right : bool) (edges : list Q) (partner mine : side) : list (list Q) :=
+  map (fun lh => mask_row right (sd_binned partner) (fst lh) (snd lh) (sd_patches partner)
+                          (bin_weights right mine (fst lh) (snd lh))) (bin_bounds edges).
+Definition meas_pc_skip (right : bool) (edges : list Q) (m : mcounts) : pc :=
+  {| pc_auto := mc_auto m; pc_counts := mc_counts m;
+     pc_w1 := side_weights_skip right edges (mc_s2 m) (mc_s1 m);
+     pc_w2 := side_weights_skip right edges (mc_s1 m) (mc_s2 m) |}.
